@@ -255,6 +255,11 @@ def cmds(job, rng, home):
                 if not all(w.custom.get(i.split("/")[1]) for i in ids):
                     outs = None
             cl.append((it, "set", {"tasks": ids, "flow": rng.choice([[], [], ["new"]]), "outputs": outs}))
+        elif k == "set_reload":
+            # an output completed by hand on a live task, then a reload: the reloaded proxy must keep it
+            it = rng.randint(2, max(2, n_iters))
+            cl.append((it, "set", {"tasks": ["@pooled"], "flow": [], "outputs": [rng.choice(["x", "x", "started", "submitted"])]}))
+            cl.append((it + rng.choice([0, 1, 2]), "reload_workflow", {}))
         elif k == "flipflop":
             # two commands in one pass over the command queue that take a queued task's status away and back:
             # cylc set --out=failed (waiting -> failed), cylc trigger (failed -> waiting, back in its full queue)
